@@ -339,14 +339,14 @@ def run_sharded(exe, base_args, ncases, on_line, on_death, seed, timeout_per_cas
     shards = shards or min(NJOBS, max(1, ncases // 4))
     per = (ncases + shards - 1) // shards
 
-    hangs = [0]
+    hangs = [0]; deaths = [0]
 
     def work(si):
         a = first + si * per
         b = min(first + ncases, a + per)
         while a < b:
-            if hangs[0] >= 6:
-                return          # several confirmed hangs: the verdict is a violation already, each further one costs minutes
+            if hangs[0] >= 6 or deaths[0] >= max(400, ncases // 100):
+                return          # several confirmed hangs / hundreds of dead cases: the verdict is a violation already, going on costs minutes to hours
             cmd = [exe] + list(base_args) + ['--seed', str(seed), '--from', str(a), '--to', str(b)]
             r = run_proc_watch(cmd, stall=max(30.0, timeout_per_case * 3), total=max(min_shard_timeout, timeout_per_case * (b - a)), env=env)
             cur = None
@@ -381,6 +381,7 @@ def run_sharded(exe, base_args, ncases, on_line, on_death, seed, timeout_per_cas
                 d = d1
                 if d1[0] == 'hang':
                     hangs[0] += 1
+            deaths[0] += 1
             on_death(cur, d, [exe] + list(base_args) + ['--seed', str(seed), '--from', str(cur), '--to', str(cur + 1)])
             a = cur + 1
 
